@@ -354,6 +354,25 @@ impl Coll {
 fn run_collections(prop: &'static str, seed: u64, iters: usize) {
     let mut rng = Rng(seed.wrapping_mul(0x9E3779B97F4A7C15) | 1);
     for it in 0..iters {
+        // C15 ("a refusal leaves the collection undisturbed") is judged differentially: the history is first run WITHOUT
+        // attempting the pushes that would be refused; if an output is lost / misordered there as well, the refusal is not
+        // the cause and the history says nothing about C15.
+        let mut refusal_independent = false;
+        if prop == "C15" {
+            let mut r2 = Rng(rng.0);
+            let hook = std::panic::take_hook();
+            std::panic::set_hook(Box::new(|_| {}));
+            let res = std::panic::catch_unwind(std::panic::AssertUnwindSafe(|| collections_history(prop, &mut r2, it, true, false)));
+            std::panic::set_hook(hook);
+            refusal_independent = res.is_err();
+        }
+        collections_history(prop, &mut rng, it, false, refusal_independent);
+    }
+}
+struct DryFail;
+#[allow(unused_variables)]
+fn collections_history(prop: &'static str, rng: &mut Rng, it: usize, skip_refused: bool, refusal_independent: bool) {
+    {
         let kind = rng.below(4);
         let mut cap = 1 + rng.below(3);
         let mut children: Vec<St> = vec![];
@@ -407,7 +426,12 @@ fn run_collections(prop: &'static str, seed: u64, iters: usize) {
         // lost / misordered output is ALSO evidence against C15
         let refused = Cell::new(false);
         let fail = |props: &[&str], hist: &Vec<String>, what: String| {
-            let via_refusal = prop == "C15" && refused.get() && (props.contains(&"C02") || props.contains(&"C04"));
+            if skip_refused {
+                // dry pass (no refused push attempted): only remember whether an output was lost / misordered anyway
+                if props.contains(&"C02") || props.contains(&"C04") { std::panic::panic_any(DryFail); }
+                return;
+            }
+            let via_refusal = prop == "C15" && refused.get() && !refusal_independent && (props.contains(&"C02") || props.contains(&"C04"));
             if props.contains(&prop) || via_refusal {
                 let what = if via_refusal { format!("{what} (after a refused push in this history: the refusal disturbed the collection)") } else { what };
                 report(&Fail { prop, scenario: scenario.clone(), history: hist.clone(), what })
@@ -432,7 +456,7 @@ fn run_collections(prop: &'static str, seed: u64, iters: usize) {
                     let before_len = coll.len();
                     let running: usize = model.iter().filter(|i| !children[**i].done.get()).count();
                     let f = Fut::new(id, st.clone());
-                    let r = if front { coll.push_front(f) } else { coll.push_back(f) };
+                    let r = if skip_refused && bounded && running >= cap { Err(f) } else if front { coll.push_front(f) } else { coll.push_back(f) };
                     hist.push(format!("push_{}({id}{}{}{})", if front { "front" } else { "back" }, if st.ready.get() { ",ready" } else { "" }, if st.self_wake.get() { ",selfwake" } else { "" }, if st.wake_on_ready.get() { ",wakes-itself-when-completing" } else { "" }));
                     match r {
                         Ok(()) => {
